@@ -151,7 +151,7 @@ def main():
         "seed": a.seed, "shard": a.shard, "runs_range": [lo, hi], "hash_seed": os.environ.get("PYTHONHASHSEED"),
         "fuel": fuel, "caches_discovered": sorted(pristine_sizes),
         "runs": 0, "runs_faulted": 0, "runs_faultfree": 0, "runs_shimmed": 0,
-        "steps": 0, "trivial_skipped": 0, "probes": 0, "probes_faulted": 0, "probes_faultfree": 0, "agree": 0,
+        "steps": 0, "trivial_skipped": 0, "unsampled": 0, "marathons": 0, "max_steps_in_a_run": 0, "probes": 0, "probes_faulted": 0, "probes_faultfree": 0, "agree": 0,
         "inconclusive": {}, "diverge": {}, "diverge_faulted": 0, "diverge_faultfree": 0, "diverging_runs": 0,
         "faults_armed": {}, "faults_fired": {}, "faults_swallowed": 0, "retries_ok": 0,
         "natural_failures": {}, "ops": {}, "skipped": 0, "late_drift": 0,
@@ -173,7 +173,7 @@ def main():
         steps = prog["steps"]
         cfg = prog["config"]
         envs = gen.make_envs(steps)
-        res = sh.evaluate_program(steps, envs, fuel=fuel, shims=cfg["shims"], skip_trivial=True)
+        res = sh.evaluate_program(steps, envs, fuel=fuel, shims=cfg["shims"], skip_trivial=True, max_probes=40)
         if res["harness"]:
             out["harness"].append({"run": run, "what": res["harness"]})
             continue
@@ -186,6 +186,8 @@ def main():
         _add(out["flavours"], cfg["flavour"])
         _add(out["schedules"], cfg["schedule"])
         out["steps"] += len(steps)
+        out["marathons"] += 1 if cfg.get("marathon") else 0
+        out["max_steps_in_a_run"] = max(out["max_steps_in_a_run"], len(steps))
         warm = res["warm"]
         out["clock_warm"] += warm["clock"]
         out["cold_forks"] += res.get("cold_forks", 0)
@@ -220,7 +222,11 @@ def main():
                 out["cold_cached"] += 1
 
             v = p["verdict"]
-            if v == "trivial":
+            if v == "unsampled":
+                out["probes"] -= 1
+                out["probes_faulted" if faulted else "probes_faultfree"] -= 1
+                out["unsampled"] += 1
+            elif v == "trivial":
                 out["probes"] -= 1
                 out["probes_faulted" if faulted else "probes_faultfree"] -= 1
                 out["trivial_skipped"] += 1
